@@ -49,6 +49,10 @@ Full statement / proved / missing
                          (`TypeTyped`), hence EVERY instance either constructor builds (named, fall-through, parameterized)
                          is `Valid` — the hypothesis of `C17_equality` / `C17_equals_total` / `C17_inithash` is met by every
                          constructed object, not only by positional ones.
+* `C17_names_identify`, `C17_equality_env` — proved, END TO END: for any accepted list of definitions (`defineAll [] ds = ok env`,
+                         hash-literal shape `DefShape`), any two of its types and any two instances made by either
+                         constructor, `Equals` is total and characterised as in `C17_equality` — the hypotheses `WF`, `Valid`
+                         and `hname` are all discharged (`C17_wf_env`, `C17_typed_env`, `C17_valid_named`, `C17_names_identify`).
 * `C17_subtype`        — proved: an ancestor (any non-empty suffix of the level list) accepts every instance;
                          `C17_subtype_strict`: a type never accepts an instance of a proper ancestor.
 * `C17_instance_closure` — proved: among the types of one loader (`defineAll [] ds = .ok env`, any number of definitions)
@@ -1508,6 +1512,64 @@ theorem C17x_valid {t : OType} (hw : WF t) (ht : TypeTyped t) :
   · simp only [hm, Bool.false_eq_true, if_false] at hn
     exact hpos _ _ hn
 
+/-! ### one loader, end to end: the side conditions of the theorems above are met by everything `defineAll` accepts -/
+
+/-- within one loader a name identifies a type: two types of an accepted list of definitions that `objectType.Equals`
+    equates are the same type — the hypothesis `hname` of `C17_equality` / `C17_equals_total` / `C17_equality_symmetric` -/
+theorem C17_names_identify {ds : List Def} {env : List OType} (h : defineAll [] ds = .ok env) {i j : Nat}
+    {t t' : OType} (hi : env[i]? = some t) (hj : env[j]? = some t') (he : tyEq t t' = true) : t' = t := by
+  have hg : GoodEnv ds env := by simpa using defineAll_good goodEnv_nil h
+  obtain ⟨l, r, ht, hl⟩ := good_head hg hi
+  obtain ⟨l', r', ht', hl'⟩ := good_head hg hj
+  rw [ht, ht'] at he
+  have hid := tyEq_head_id he
+  have : i = j := by omega
+  subst this
+  rw [hi] at hj
+  exact (Option.some.inj hj).symm
+
+/-- END TO END: for ANY list of definitions the model of `InitFromHash` accepts (hash literals: `DefShape`), any two of its
+    types, and any two instances made by either constructor: `Equals` answers (never faults), and answers true exactly when
+    `Get` agrees on every equality attribute and either the two types are the same type or both leave the type out of
+    equality and compare the same attributes.  No side condition is left but the shape of the input. -/
+theorem C17_equality_env {ds : List Def} {env : List OType} (h : defineAll [] ds = .ok env)
+    (hds : ∀ d ∈ ds, DefShape d) {i j : Nat} {t t' : OType} (hi : env[i]? = some t) (hj : env[j]? = some t')
+    {o o' : Obj} (ho : (∃ vs, newPos t vs = .ok o) ∨ (∃ es hv, newNamed t es hv = .ok o))
+    (ho' : (∃ vs, newPos t' vs = .ok o') ∨ (∃ es hv, newNamed t' es hv = .ok o')) :
+    (∃ b, equals o o' = .ok b) ∧
+    (equals o o' = .ok true ↔
+      ((tyEq o.typ o'.typ = true ∧ ∀ n ∈ eqAttrNames o.typ, get o n = get o' n) ∨
+       (tyEq o.typ o'.typ = false ∧ includesType o.typ = false ∧ includesType o'.typ = false ∧
+          (eqAttrNames o.typ).length = (eqAttrNames o'.typ).length ∧
+          ∀ n ∈ eqAttrNames o.typ, n ∈ eqAttrNames o'.typ ∧ get o n = get o' n))) := by
+  have hwf := C17_wf_env (env0 := []) (by simp) hds h
+  have hty := C17_typed_env (env0 := []) (by simp) h
+  have hmem : t ∈ env := List.mem_of_getElem? hi
+  have hmem' : t' ∈ env := List.mem_of_getElem? hj
+  -- what a constructor builds has the type it was asked for, and is Valid
+  have hmk : ∀ {u : OType} {x : Obj}, u ∈ env → ((∃ vs, newPos u vs = .ok x) ∨ (∃ es hv, newNamed u es hv = .ok x)) →
+      x.typ = u ∧ Valid x := by
+    intro u x hu hx
+    rcases hx with ⟨vs, hx⟩ | ⟨es, hv, hx⟩
+    · exact ⟨by rw [(newPos_ok hx).1], valid_newPos hx⟩
+    · refine ⟨?_, C17_valid_named (hwf u hu).2 (hty u hu) hx⟩
+      unfold newNamed at hx
+      by_cases hm : namedMatches (attrInfo u) es = true
+      · by_cases hc : coerceOk (attrInfo u) es = true
+        · simp only [hm, hc, if_true, pfh_result hm] at hx
+          cases hx; rfl
+        · simp [hm, hc] at hx
+      · simp only [hm, Bool.false_eq_true, if_false] at hx
+        rw [(newPos_ok hx).1]
+  obtain ⟨hot, hov⟩ := hmk hmem ho
+  obtain ⟨hot', hov'⟩ := hmk hmem' ho'
+  have hw : WF o.typ := by rw [hot]; exact (hwf t hmem).2
+  have hw' : WF o'.typ := by rw [hot']; exact (hwf t' hmem').2
+  have hname : tyEq o.typ o'.typ = true → o'.typ = o.typ := by
+    rw [hot, hot']
+    exact C17_names_identify h hi hj
+  exact ⟨C17_equals_total hw hw' hov hov' hname, C17_equality hw hw' hov hov' hname⟩
+
 /-! ### the definition re-created from the InitHash of the type it defined -/
 
 /-- FULL statement: every accepted definition, re-created from the InitHash of the type it defined (`typeDef`, what
@@ -1622,6 +1684,12 @@ theorem sampleWF3 : WF sampleT3 :=
 example : (posAttrs sampleT3).map (·.name) = ["z", "a"] ∧ requiredCount sampleT3 = 1 := ⟨rfl, rfl⟩
 example : get { typ := sampleT3, values := [.str "x"] } "a" = .ok (some (.int 3)) :=
   C17_get (i := 1) sampleWF3 (rfl : newPos sampleT3 [.str "x"] = .ok _) rfl
+
+/-- hypotheses of `C17_equality_env` / `C17_names_identify`: two types of the sample, one instance made positionally, one by
+    name; `Equals` answers -/
+example : ∃ b, equals { typ := sampleT2, values := [.int 1] } { typ := sampleT0, values := [.int 1] } = .ok b :=
+  (C17_equality_env (rfl : defineAll [] sampleDefs = .ok sampleEnv) sampleShape (i := 2) (j := 0) rfl rfl
+    (Or.inl ⟨[.int 1], rfl⟩) (Or.inr ⟨[("a", .int 1)], .hash "", rfl⟩)).1
 
 /-- hypotheses of `C17_valid_named`: the types of the sample hold well-typed defaults; a named construction on the grand-child -/
 example : TypeTyped sampleT2 :=
